@@ -34,17 +34,25 @@ func CaptureResponse(w http.ResponseWriter) *ResponseCapture {
 // code that was sent (informational 1xx codes may still be followed by the
 // final one).
 func (w *ResponseCapture) WriteHeader(code int) {
-	if w.StatusCode < 200 && w.StatusCode != http.StatusSwitchingProtocols {
+	if !w.wroteFinalStatus() {
 		w.StatusCode = code
 	}
 	w.ResponseWriter.WriteHeader(code)
 }
 
+// wroteFinalStatus reports whether the recorded status is final: informational
+// 1xx responses (other than 101 Switching Protocols) are followed by the final
+// status.
+func (w *ResponseCapture) wroteFinalStatus() bool {
+	return w.StatusCode >= 200 || w.StatusCode == http.StatusSwitchingProtocols
+}
+
 // Write computes the written len and stores it in ContentLength. As with
-// net/http, writing before WriteHeader was called sends a 200 status which is
+// net/http, writing before a final status was written (WriteHeader not called,
+// or called with informational 1xx codes only) sends a 200 status which is
 // recorded in StatusCode.
 func (w *ResponseCapture) Write(b []byte) (int, error) {
-	if w.StatusCode == 0 {
+	if !w.wroteFinalStatus() {
 		w.StatusCode = http.StatusOK
 	}
 	n, err := w.ResponseWriter.Write(b)
@@ -53,11 +61,11 @@ func (w *ResponseCapture) Write(b []byte) (int, error) {
 }
 
 // Flush implements the http.Flusher interface if the underlying response
-// writer supports it. Flushing before WriteHeader was called sends a 200 status
-// which is recorded in StatusCode.
+// writer supports it. Flushing before a final status was written sends a 200
+// status which is recorded in StatusCode.
 func (w *ResponseCapture) Flush() {
 	if f, ok := w.ResponseWriter.(http.Flusher); ok {
-		if w.StatusCode == 0 {
+		if !w.wroteFinalStatus() {
 			w.StatusCode = http.StatusOK
 		}
 		f.Flush()
